@@ -7,6 +7,7 @@ MODULES = ["TLVerif.Props.C26"]
 THEOREMS = ["TLVerif.Props.C26." + t for t in [
     "counts_and_timestamps", "constructors_listed_once", "functions_listed_once", "constructor_tag_name",
     "types_listed_once", "type_entry_faithful", "type_name_is_xor_of_tags",
+    "tlo_roundtrip", "tlo_types_decode_back", "tlo_bytes_decode_back",
     "type_name_xor_fails_for_Type", "builtin_tag_fails_at"]]
 
 BUILTIN = {"int": 0xa8509bda, "long": 0x22076cba, "float": 0x824dab22, "double": 0x2210c154, "string": 0xb5286e24}
@@ -42,7 +43,7 @@ def parse_ast(ast):
 def oracle(c, line, ts, ast, out):
     """the property statement, evaluated on what the implementation produced (decoded with tltls)"""
     p = out.split(" ")
-    if len(p) != 3 or p[0] != "ok":
+    if len(p) != 3 or p[0] != "ok" or not p[2].startswith("("):
         if out.startswith("ok "):
             c.oracle_fail(line, "TLO bytes do not decode back to the generated description: " + " ".join(p[2:3]), line)
         return
@@ -106,7 +107,7 @@ def oracle(c, line, ts, ast, out):
 def run(c):
     c.facts(["Prim", "Tlomig"])
     c.lean(MODULES, THEOREMS, sources=["TLVerif.Tlomig.Sexp", "TLVerif.Tlomig.Ast", "TLVerif.Tlomig.Tls", "TLVerif.Tlomig.GenTlo",
-                                       "TLVerif.Tlomig.TlsLemmas", "TLVerif.Tlomig.GenTloLemmas"])
+                                       "TLVerif.Tlomig.TlsWf", "TLVerif.Tlomig.TlsLemmas", "TLVerif.Tlomig.GenTloLemmas"])
     model = c.model_exe()
     impl = c.harness("htlomig", overlays=OVERLAYS())
     rng = c.rng
@@ -164,7 +165,7 @@ def run(c):
         ts, ast = meta[l]
         oracle(c, l, ts, ast, a)
         p = a.split(" ")
-        if len(p) == 3 and p[0] == "ok":
+        if len(p) == 3 and p[0] == "ok" and p[2].startswith("("):
             data = unhex(p[1])
             ln = "tlomig.tlsrt " + p[1]
             rt_lines.append(ln)
